@@ -52,6 +52,87 @@ SKIP_FUNCS = {"deprecation", "print", "plot", "show", "ValueError", "KeyError", 
               "SignalProcessingWarning", "warn", "format"}
 
 
+# Triage of survivors (file, first line, last line, verdict, why).  Verdicts:
+#   equivalent   - no observable change for any input in the claimed domain
+#   allowed      - observable change, but the property's statement permits both behaviours (or the input is outside its quantifier)
+#   not-claimed  - the code's behaviour is not stated by any of the 20 properties (it is only executed, e.g. as a mutator in C04/C05)
+#   strengthened - a blind spot; the named check was strengthened and now catches it
+# Line numbers refer to /repo at the commit given in selftest/auto_summary.json.
+TRIAGE = [
+    ("design_spectra", 20, 22, "equivalent", "flag only tested for truth; placeholder array fully overwritten"),
+    ("design_spectra", 28, 74, "allowed", "segment boundaries where the spectrum is continuous (both formulas agree at the joint to rounding); "
+                                           "'tt == 0' falls through to a branch with the same value; one-element result indexed [0] / [-1]; negative periods are outside T >= 0"),
+    ("design_spectra", 100, 108, "allowed", "displacement exactly equal to the corner displacement (a one-ulp set: the harness cannot construct it "
+                                             "without replicating the formula)"),
+    ("design_spectra", 118, 160, "allowed", "as for c_h_factor: continuous joints, the T == 0 branch multiplies by T**2 = 0"),
+    ("average", 51, 51, "equivalent", "np.array() of something every later numpy call converts anyway"),
+    ("average", 63, 63, "equivalent", "placeholder array fully overwritten"),
+    ("average", 68, 71, "allowed", "dir= penalty when both side means are equal: the statement does not mention dir"),
+    ("average", 101, 102, "allowed", "array() / int() of arguments that are arrays / ints in the quantifier (window sizes 1..len are integers)"),
+    ("frequency", 8, 14, "not-claimed", "get_sig_array_indexes_range: no property"),
+    ("frequency", 228, 233, "equivalent", "axis=0 / -1 of a 1-D array"),
+    ("generic", 38, 50, "equivalent", "index clipped to -1 only where its weight is exactly 0; ties x_ind == x give weight 0 / 1 on the same node; "
+                                     "clip floor 1e-10 vs 1.1e-10 below every generated node spacing"),
+    ("generic", 76, 83, "equivalent", "constant inside an assertion message; one-element result indexed [0] / [-1]"),
+    ("generic", 88, 92, "equivalent", "affine re-parametrisation of the polyfit abscissa"),
+    ("peaks_and_crossings", 20, 50, "equivalent", "np.where(...)[0] / [-1] of a 1-tuple; -s*p < 0 vs <= 0 differs only for p == 0 where both branches give 0"),
+    ("peaks_and_crossings", 112, 126, "equivalent", "first peak value never equals the first value after cleaning"),
+    ("peaks_and_crossings", 150, 180, "equivalent", "to_begin sentinel any value > 1; len > 1 vs > 0 (a single zero index is kept either way); "
+                                                    "tol > -1 enters a loop whose condition max|x| < 0 is never true; where()[0] / [-1]"),
+    ("peaks_and_crossings", 262, 292, "allowed", "rebasing to the last instead of the first value negates the whole delta series; the statement "
+                                                 "fixes magnitudes only (sum |d| = TV, |sum d| = |x[-1]-x[0]|)"),
+    ("time_step", 30, 50, "equivalent", "factor == 1 handled identically by the next branch; int(ceil(x)) vs ceil(x) feed np.arange / int()"),
+    ("time_step", 96, 120, "strengthened", "int(round(x)) -> int(x) only differs when fl(1/k)*npts falls below a whole number (k = 49, 98, ...): "
+                                           "C14 fourier-rule got the inexact-reciprocal family, which found genuine defect C14-F2 on the pinned tree"),
+    ("im", 40, 60, "equivalent", "ind2[0][0] / ind2[-1][0] of a 1-tuple"),
+    ("im", 170, 222, "allowed", "calc_cav_dp: unused pga_max; round() already returns int; redundant abs; second branch of an exhaustive if / elif; "
+                                "mask upper limit that every element satisfies; the time alignment of the interpolated series is not fixed by the "
+                                "statement (length, monotonicity, range and final value are, and are checked)"),
+    ("im", 290, 350, "equivalent", "bandwidth: '>' vs '>=' at exact equality with max/ratio (measure zero); 1-tuple indexing"),
+    ("im", 462, 534, "equivalent", "abs() applied twice"),
+    ("im", 555, 580, "equivalent", "abs() of pseudo spectra, which are >= 0"),
+    ("multiple", 28, 60, "not-claimed", "Cluster constructor defaults (freq_range, response_times, names, Signal vs AccSignal class): C18 states "
+                                        "alignment and rotation only; master_index -1 is outside 'master_index in range'"),
+    ("multiple", 84, 101, "not-claimed", "unused 'base' argument; verbose printing"),
+    ("multiple", 125, 180, "allowed", "time_match: verbose / unused trim; residual norm (sum vs max) and tie rule (< vs <=) pick the same lag "
+                                      "whenever a lag with zero residual exists, which is what the statement covers; i + 0 / i - 0; the value used to "
+                                      "pad outside the overlap is not fixed by the statement"),
+    ("multiple", 255, 270, "allowed", "list instead of ndarray returned by compute_rotated: the statement fixes the values"),
+    ("sdof", 85, 110, "equivalent", "np.array([[..]]) of blocks that are only indexed [i][j]"),
+    ("sdof", 128, 135, "equivalent", "float() of floats"),
+    ("sdof", 145, 162, "equivalent", "placeholder fully overwritten; tie -amin == amax gives the same absolute value"),
+    ("sdof", 174, 188, "allowed", "unused variable s; w[0] multiplies S_d[0] = 0; T exactly equal to 6 dt (boundary not fixed by the statement)"),
+    ("sdof", 250, 262, "not-claimed", "calc_resp_uke_spectrum: no property"),
+    ("single", 45, 55, "equivalent", "placeholder overwritten before it can be read"),
+    ("single", 130, 162, "not-claimed", "default smoothing frequency range / count of the object (C07 quantifies over target-frequency sets that are given)"),
+    ("single", 250, 282, "allowed", "Gibbs padding layout (pad length, side, fill value): the statement fixes the response away from the ends and the "
+                                    "length, which are checked for all four remove_gibbs modes"),
+    ("single", 296, 316, "equivalent", "verbose printing; affine re-parametrisation of the polyfit abscissa"),
+    ("single", 396, 412, "equivalent", "running_average edge branch: both branches slice the same clipped window"),
+    ("single", 440, 448, "equivalent", "placeholders overwritten before they can be read"),
+    ("single", 485, 500, "allowed", "a finer integration step than max(T/20, dt/ratio) is allowed ('no coarser than'); equal steps; dropping one "
+                                    "interpolated tail sample stays inside the [no tail, held tail] sandwich"),
+    ("single", 536, 552, "not-claimed", "correct_me: no property"),
+    ("single", 553, 592, "not-claimed", "remove_rolling_average: the amount it removes is not stated by any property (C04 / C05 / C09 use it as a mutator)"),
+    ("single", 593, 672, "not-claimed", "baseline corrections (zero residual velocity / displacement, rebasing): the correction applied is not stated "
+                                        "by any property; C04, C08 and C09 assert that every derived quantity is consistent afterwards"),
+    ("single", 738, 812, "not-claimed", "deprecated duration statistics and their placeholder values"),
+    ("single", 815, 822, "equivalent", "verbose printing"),
+    ("stockwell", 118, 150, "equivalent", "sign of a frequency that is only squared; overwrite_x on a temporary; slice end beyond the array"),
+    ("surface", 25, 45, "equivalent", "min(max(2 s), 0) = min(min(2 s), 0) = 0 for non-negative shifts; shift exactly 0 takes either branch identically"),
+    ("surface", 95, 105, "equivalent", "one-row result indexed [0] / [-1]"),
+    ("surface", 205, 212, "equivalent", "one-row result indexed [0] / [-1]"),
+]
+
+
+def triage(r):
+    base = os.path.basename(r["file"]).replace(".py", "")
+    for b, lo, hi, verdict, why in TRIAGE:
+        if b == base and lo <= r["line"] <= hi:
+            return verdict, why
+    return None, None
+
+
 def _is_doc(node, parent):
     return isinstance(parent, ast.Expr)
 
@@ -286,6 +367,7 @@ def main():
     ap.add_argument("--ids", default=None)
     ap.add_argument("--tests-only", action="store_true")
     ap.add_argument("--redo", action="store_true", help="re-run mutants that already have a result")
+    ap.add_argument("--all", action="store_true", help="report: also list triaged survivors")
     ap.add_argument("--only-result", default=None, help="re-run only mutants whose stored result is one of these (comma separated)")
     args = ap.parse_args()
     out_path = os.path.join(HERE, "auto_results.json")
@@ -298,9 +380,29 @@ def main():
         for r in rs:
             tally[r["result"]] = tally.get(r["result"], 0) + 1
         print(tally)
+        verdicts = {}
+        open_items = []
         for r in sorted(rs, key=lambda r: r["id"]):
-            if r["result"] not in ("caught", "killed-by-tests"):
-                print("%-9s %-44s %-22s | %s" % (r["result"], r["id"], r["detail"], r["src"]))
+            if r["result"] in ("caught", "killed-by-tests"):
+                continue
+            if r["result"] in ("HARNESS", "TIMEOUT"):
+                verdicts[r["result"].lower()] = verdicts.get(r["result"].lower(), 0) + 1
+                continue
+            v, why = triage(r)
+            if v is None:
+                open_items.append(r)
+            else:
+                verdicts[v] = verdicts.get(v, 0) + 1
+        print("survivors by verdict:", verdicts, "untriaged:", len(open_items))
+        for r in open_items:
+            print("%-9s %-44s %-22s | %s" % (r["result"], r["id"], r["detail"], r["src"]))
+        if "--all" in sys.argv:
+            for r in sorted(rs, key=lambda r: r["id"]):
+                if r["result"] not in ("caught", "killed-by-tests"):
+                    print("%-9s %-44s %-22s | %s" % (r["result"], r["id"], r["detail"], r["src"]))
+        summary = {"repo_commit": subprocess.run(["git", "-C", REPO, "rev-parse", "--short", "HEAD"], capture_output=True, text=True).stdout.strip(),
+                   "mutants": len(rs), "by_result": tally, "survivors_by_verdict": verdicts, "untriaged": [r["id"] for r in open_items]}
+        json.dump(summary, open(os.path.join(HERE, "auto_summary.json"), "w"), indent=1)
         return 0
     ms = select(args)
     if args.cmd == "list":
